@@ -470,6 +470,14 @@ class Unit:
         if self.dimensions is logarithmic and p != 1:
             raise InvalidUnitOperation(f"Tried to raise '{self}' to power '{p}'")
 
+        if self.base_offset:
+            if p == 1:
+                return self
+            raise InvalidUnitOperation(
+                "Quantities with dimensions of angle or units of "
+                "Fahrenheit or Celsius cannot be raised to a power."
+            )
+
         return Unit(
             self.expr**p,
             base_value=(self.base_value**p),
